@@ -394,7 +394,48 @@ def c16(k, ctx):
                        "sequential runs of the seeds in range (the reference for Search) use the same real run()"]
 
 
-PIPELINES = {"C16": c16, "C13": c13, "C12": c12, "C14": c14, "C15": c15, "C18": c18, "C03": c03, "C04": c04, "C05": c05, "C01": c01, "C10": c10, "C08": c08, "C11": c11, "C02": c02, "C09": c09, "C17": c17}
+def c06(k, ctx):
+    ctx.rule = ("one case = one of the 21 DVB-S2 code identifiers with its real matrix: every column of the 10 short codes (every column of all 21 in thorough), for normal codes in quick all base "
+                "addresses + 12 sampled 360-column groups + ~400 sampled parity columns; encoder acceptance under a stopwatch with 3 encodings; SHA-256 of the canonical alist vs pins/dvbs2.json; "
+                "non-trivial = the 21 distinct codes (exhaustive over the identifier set)")
+    ctx.tlc_mc("MC_QcCode", "MC_QcCode_thorough.cfg" if ctx.thorough else "MC_QcCode.cfg", workers=4)
+    ctx.vh("gen", "i2s", timeout=3000)
+    recs, rej = ctx.validate("Trace_C06", timeout=3000, xmx="12g")
+    ctx.require_events("Dvb")
+    for r in recs:
+        ctx.nontrivial_keys.add(r.get("code"))
+    ctx.exhaustive = True
+    ctx.extra["codes"] = len(recs)
+    ctx.extra["columns_checked_against_the_law"] = sum(360 * len(r.get("groups", [])) for r in recs)
+    ctx.extra["encoder_ms"] = {r["code"]: r["enc"]["ms"] for r in recs if r["o"] == "ok"}
+    ctx.samples = [{"code": r["code"], "rows": r["rows"], "cols": r["cols"], "base_group_0": r["base"][0], "sha": r["sha"], "enc": r["enc"]} for r in recs[:2] if r["o"] == "ok"]
+    ctx.assumptions = ["TLC 1.8 + Json/IOUtils", "k, q and the degree profiles in QcCode.tla are typed from EN 302 307-1; no offline copy of Annex B/C exists, so the address tables themselves are only compared with "
+                       "pins generated from the repaired tree (future changes), plus the structural laws (distinctness, degree profile, 4-cycle freedom) on today's tables",
+                       "syndrome / prefix of the encodings and the SHA-256 digest are computed by the harness", "the 4-cycle criterion on base addresses is proved equivalent to Tanner!Girth # 4 by TLC on scaled-down instances (MC_QcCode)"]
+
+
+def c07(k, ctx):
+    ctx.rule = ("one case = one CCSDS code with its real matrix as row adjacency lists: the six AR4JA codes with k = 1024 / 4096 (all nine in thorough) and C2; ranks by bit-packed "
+                "elimination; encoder acceptance and encodings for the codes up to 768 (1536 thorough) rows; girth of rate-1/2 k=1024 and of C2; SHA-256 vs pins/ccsds.json; "
+                "non-trivial = the distinct codes (exhaustive over the identifier set of the tier)")
+    ctx.tlc_mc("MC_Ccsds", "MC_Ccsds.cfg")
+    ctx.tlc_mc("MC_Ccsds", "MC_Ccsds_neg.cfg", expect_violation=True)       # insert-only expansion where two permutations collide
+    ctx.vh("gen", "i2s", timeout=6000)
+    recs, rej = ctx.validate("Trace_C07", timeout=6000, xmx="16g")
+    ctx.require_events("Ar4ja", "C2")
+    for r in recs:
+        ctx.nontrivial_keys.add(r.get("code"))
+    ctx.exhaustive = True
+    ctx.extra["codes"] = [r.get("code") for r in recs]
+    ctx.extra["ranks"] = {r["code"]: [r["rank"], r["tail_rank"]] for r in recs if r["o"] == "ok"}
+    ctx.extra["encoder_probed"] = [r["code"] for r in recs if r["o"] == "ok" and not r["enc"].get("skipped")]
+    ctx.samples = [{"code": r["code"], "nrows": r["nrows"], "ncols": r["ncols"], "row_0": r["rows"][0], "rank": r["rank"], "sha": r["sha"], "cyc6": r["cyc6"]} for r in recs[:1] + recs[-1:] if r["o"] == "ok"]
+    ctx.assumptions = ["TLC 1.8 + Json/IOUtils", "M table, protograph weights and C2 parameters typed from CCSDS 131.0-B; theta/phi tables and circulant offsets only compared with pins taken from the unchanged tree",
+                       "GF(2) ranks, the 4-cycle test and SHA-256 are harness oracles (bit-packed elimination; sorted column pairs); the 6-cycle witnesses are verified by TLC edge by edge",
+                       "encoder acceptance is probed only where the dense Gauss-Jordan of from_h finishes in seconds (<= 768 rows quick, <= 1536 thorough); invertibility of the last 3M columns is otherwise established by the rank oracle"]
+
+
+PIPELINES = {"C07": c07, "C06": c06, "C16": c16, "C13": c13, "C12": c12, "C14": c14, "C15": c15, "C18": c18, "C03": c03, "C04": c04, "C05": c05, "C01": c01, "C10": c10, "C08": c08, "C11": c11, "C02": c02, "C09": c09, "C17": c17}
 NOT_YET = {}
 
 
